@@ -39,7 +39,7 @@ theorem printArg_head (a : Arg) (hw : a.wf = true) :
     have hf := digitChar_facts d hd
     by_cases hn : n < 0
     · exact ⟨'-', natStr n.natAbs, by simp [printArg, intStr, hn], by decide, by decide⟩
-    · refine ⟨digitChar d, r, by simp [printArg, intStr, hn, hr], hf.2.2.2.2.2.2, ?_⟩
+    · refine ⟨idigitChar d, r, by simp [printArg, intStr, hn, hr], hf.2.2.2.2.2.2, ?_⟩
       intro hc
       have := hf.1
       rw [hc] at this
